@@ -88,6 +88,28 @@ def hash_container(t):
     return (head.split("::")[-1], args[0], hasher)
 
 
+def flattened_hash_container(t):
+    """the hash container type that `Flatten<I>` / `FlatMap<I, U, F>` iterates implicitly (None when there is none)."""
+    head, args = split_generic((t or "").strip())
+    if head == "std::iter::FlatMap" and len(args) > 1:
+        return peel(args[1]) if hash_container(args[1]) else None
+    if head != "std::iter::Flatten" or not args:
+        return None
+    src = args[0]
+    for h in HASH_HEADS:
+        i = src.find(h + "<")
+        if i >= 0:
+            depth = 0
+            for j in range(i, len(src)):
+                if src[j] == "<":
+                    depth += 1
+                elif src[j] == ">" and src[j - 1] != "-":
+                    depth -= 1
+                    if depth == 0:
+                        return src[i:j + 1]
+    return None
+
+
 def is_setlike(t):
     head, _ = split_generic(peel(t))
     return head in HASH_HEADS or head in ORDERED_SET_HEADS
@@ -242,6 +264,9 @@ class Effects:
                 t = b.ty(r) or ""
                 return fn_level and not (t.startswith("&") and not t.startswith("&mut"))
             holder = origin[1]
+            if holder.get("body") is region and holder["k"] in ("For", "Closure"):
+                # the loop variable / closure parameter of the region itself: own iff it is a value, not a reference
+                return not (b.ty(r) or "&").startswith("&")
             if holder is region or any(a is region for a in b.ancestors(holder)):
                 t = b.ty(r) or ""
                 # a reference bound inside the region may still point outside it
@@ -385,10 +410,6 @@ FOREIGN_LOOKUP_ONLY = {
 }
 ADAPTERS = {"map", "filter", "filter_map", "flat_map", "flatten", "cloned", "copied", "chain", "peekable", "inspect",
             "fuse", "by_ref", "into_iter", "iter", "map_while"}
-POSITIONAL = {"take", "skip", "take_while", "skip_while", "step_by", "enumerate", "zip", "rev", "last", "nth", "next",
-              "find", "find_map", "position", "fold", "try_fold", "reduce", "unzip", "partition", "for_each_ordered",
-              "min_by", "max_by", "min_by_key", "max_by_key", "eq", "cmp", "lt", "le", "gt", "ge", "is_sorted", "scan",
-              "windows", "chunks", "join", "format", "to_vec", "collect_vec", "next_back", "peek", "try_for_each"}
 INSENSITIVE_TERMINALS = {"any", "all", "count", "sum", "product", "min", "max", "len", "is_empty", "contains",
                          "size_hint"}
 
@@ -419,7 +440,7 @@ class HashFlows:
     # -- description of the container expression (stable under renaming of locals)
     def container_desc(self, b, n, depth=4):
         while n.get("k") in ("AddrOf", "Cast") or (n.get("k") == "Unary" and n.get("op") == "*") or \
-                (n.get("k") == "MCall" and n.get("name") in THROUGH):
+                (n.get("k") == "MCall" and (n.get("name") in THROUGH or n.get("name") in ("iter", "into_iter", "values", "cloned", "copied"))):
             n = n.get("e") or n.get("recv")
         k = n.get("k")
         if k == "Field":
@@ -456,6 +477,12 @@ class HashFlows:
                     continue
                 if k not in ("MCall", "Call"):
                     continue
+                if k == "MCall" and n["name"] in ("flatten", "flat_map"):
+                    # Option<HashSet<..>>::iter().flatten(), Vec<HashMap<..>>::iter().flatten(), flat_map(|x| &x.set):
+                    # the inner container is iterated implicitly; it shows only in the adapter's type
+                    inner = flattened_hash_container(b.ty(n))
+                    if inner:
+                        yield (b, n["name"], n["recv"], n, inner)
                 ops = ([("recv", n["recv"])] if k == "MCall" else []) + [(("args", i), a) for i, a in enumerate(n["args"])]
                 hits = [(r, o) for r, o in ops if hash_container(b.ty(o))]
                 if not hits:
@@ -623,15 +650,15 @@ class HashFlows:
                 while q is not None and (q["k"] == "AddrOf" or (q["k"] == "Unary" and q.get("op") == "*")):
                     u, q = q, b.parent[q["_i"]]
                 if q is not None and q["k"] == "MCall" and b.role[u["_i"]] == "recv" and q["name"] in ("sort", "sort_unstable") \
-                        and not b.guards(q):
+                        and b.guards(q) == b.guards(p):
                     return "insensitive", desc + "+" + q["name"]
         return "ordered", desc
 
     # -- everything together
     def analyse(self):
         out = []
-        for b, op, cont, start in self.sites():
-            cls, why = self.types.classify(b.ty(cont))
+        for b, op, cont, start, *ct in self.sites():
+            cls, why = self.types.classify(ct[0] if ct else b.ty(cont))
             kind, sdesc = self.sink(b, start)
             desc = self.container_desc(b, cont)
             out.append({"body": b, "op": op, "cont": cont, "start": start, "cls": cls, "why": why,
@@ -715,7 +742,8 @@ def _control_program():
        fn leak_for(s: &HashSet<String>, out: &mut Vec<String>) { for k in s { out.push(k.clone()) } }      must fire
        fn quiet(m: &FxHashMap<Cursor, TypeId>) -> bool { m.values().any(|v| true) }                        silent
        fn sorted(s: &HashSet<String>) -> Vec<String> { let mut v = s.iter().cloned().collect::<Vec<_>>(); v.sort(); v }  silent
-       fn stable(m: &FxHashMap<usize, usize>) -> Vec<usize> { m.keys().copied().collect() }               stable, unlisted"""
+       fn stable(m: &FxHashMap<usize, usize>) -> Vec<usize> { m.keys().copied().collect() }               stable, unlisted
+       fn flat(o: &Option<HashSet<String>>) -> Vec<String> { o.iter().flatten().cloned().collect() }       must fire"""
     T = ["&std::collections::HashMap<clang::Cursor, ir::context::TypeId, rustc_hash::FxBuildHasher>",   # 0
          "std::collections::hash_map::Values<'_, clang::Cursor, ir::context::TypeId>",                   # 1
          "std::vec::Vec<ir::context::TypeId>",                                                           # 2
@@ -727,7 +755,10 @@ def _control_program():
          "&std::collections::HashMap<usize, usize, rustc_hash::FxBuildHasher>",                          # 8
          "std::vec::Vec<usize>",                                                                         # 9
          "()",                                                                                           # 10
-         "std::collections::hash_set::Iter<'_, std::string::String>"]                                    # 11
+         "std::collections::hash_set::Iter<'_, std::string::String>",                                    # 11
+         "&std::option::Option<std::collections::HashSet<std::string::String>>",                         # 12
+         "std::option::Iter<'_, std::collections::HashSet<std::string::String>>",                        # 13
+         "std::iter::Flatten<std::option::Iter<'_, std::collections::HashSet<std::string::String>>>"]    # 14
     S = [0, 1, 0, 1, 1]
 
     def loc(i, name, t):
@@ -750,12 +781,9 @@ def _control_program():
     leak_for = fn("control::leak_for", [bind(0, "s", 3), bind(1, "out", 4)],
                   {"k": "Block", "s": S, "t": 10, "stmts": [], "tail":
                    {"k": "For", "s": S, "t": 10, "pat": bind(2, "k", 5), "iter": loc(0, "s", 3),
-                    "body": {"k": "Block", "s": S, "t": 10, "tail": None, "stmts": [
+                    "body": {"k": "Block", "s": S, "t": 10, "stmts": [
                         {"k": "Semi", "e": mc("push", "std::vec::Vec::<T, A>::push", loc(1, "out", 4), 10,
                                               [mc("clone", "std::clone::Clone::clone", loc(2, "k", 5), 5)])}]}}}, [3, 4])
-    for st in leak_for["body"]["tail"]["body"]["stmts"]:
-        pass
-    leak_for["body"]["tail"]["body"].pop("tail")
     quiet = fn("control::quiet", [bind(0, "m", 0)],
                {"k": "Block", "s": S, "t": 6, "stmts": [],
                 "tail": mc("any", "std::iter::Iterator::any", values(), 6,
@@ -773,8 +801,14 @@ def _control_program():
                  "tail": mc("collect", "std::iter::Iterator::collect",
                             mc("copied", "std::iter::Iterator::copied",
                                mc("keys", "std::collections::HashMap::<K, V, S, A>::keys", loc(0, "m", 8), 1), 1), 9)}, [8])
+    flat = fn("control::flat", [bind(0, "o", 12)],
+              {"k": "Block", "s": S, "t": 7, "stmts": [],
+               "tail": mc("collect", "std::iter::Iterator::collect",
+                          mc("cloned", "std::iter::Iterator::cloned",
+                             mc("flatten", "std::iter::Iterator::flatten",
+                                mc("iter", "std::option::Option::<T>::iter", loc(0, "o", 12), 13), 14), 14), 7)}, [12])
     return Program({"crate": "control", "files": ["<control>"], "types": T, "adts": [], "impls": [], "traits": [],
-                    "statics": [], "fns": [leak, leak_for, quiet, sorted_, stable]})
+                    "statics": [], "fns": [leak, leak_for, quiet, sorted_, stable, flat]})
 
 
 class _Silent:
@@ -794,7 +828,7 @@ class _Silent:
         return cond
 
 
-@RULES.rule("R11.1", "hash-container iteration order never reaches an order-sensitive consumer", floor=40)
+@RULES.rule("R11.1", "hash-container iteration order never reaches an order-sensitive consumer", floor=70)
 def r11_1(rep):
     """Necessary: iterate `ctx.types` (keyed by `TypeKey`, which holds a `clang::Cursor`) into a Vec that names or
     emits items and the output order changes with the address-space layout of each process; collect an
@@ -842,10 +876,13 @@ def r11_1(rep):
             "param<HashSet<String>>.iter->for@leak_for": False,
             "param<HashMap<Cursor, TypeId, FxBuildHasher>>.values->any@quiet": True,
             "param<HashSet<String>>.iter->collect:Vec+sort@sorted": True,
-            "param<HashMap<usize, usize, FxBuildHasher>>.keys->collect:Vec@stable": False}
+            "param<HashMap<usize, usize, FxBuildHasher>>.keys->collect:Vec@stable": False,
+            "param<Option<HashSet<String>>>.flatten->collect:Vec@flat": False}
     for k, v in want.items():
-        rep.check(ctl.res.get(k) is v, "control:" + k,
-                  "control snippet must %s (got %s; all: %s)" % ("be accepted" if v else "fire", ctl.res.get(k), ctl.res))
+        good = ctl.res.get(k) is v
+        rep.check(good, "control:" + k, "hand-written control snippet %s" % (
+            ("fires, as it must" if not v else "is accepted, as it must be") if good else
+            "must %s but got %s (all results: %s)" % ("be accepted" if v else "fire", ctl.res.get(k), ctl.res)))
 
 
 # ==================================================================================================
@@ -873,7 +910,7 @@ def _static_key(path):
     return re.sub(r"(::\{[^}]*\})*::__RUST_STD_INTERNAL_VAL$", "", path)
 
 
-@RULES.rule("R11.2", "no ambient mutable state: statics are immutable or frozen lazily-initialised values", floor=5)
+@RULES.rule("R11.2", "no ambient mutable state: statics are immutable or frozen lazily-initialised values", floor=8)
 def r11_2(rep):
     """Necessary: add `static COUNTER: AtomicUsize` and use it to name anonymous items, and the second generation in
     one process (or a concurrent one on another thread) names them differently from the first."""
@@ -896,7 +933,9 @@ def r11_2(rep):
                       "thread_local `%s`: %s" % (ty, why[0] if why else "per-thread state outside the modules that only print "
                                                  "diagnostics: it survives from one generation to the next on the same thread"), loc)
         elif s["freeze"]:
-            rep.ok("static:" + key, "immutable and Freeze (%s)" % ty, loc)
+            cell = re.search(r"\b(Atomic\w+|Cell|RefCell|UnsafeCell|Mutex|RwLock|OnceLock|LazyLock|OnceCell|LazyCell)\b", ty)
+            rep.check(not cell, "static:" + key, "immutable and Freeze (%s)%s" % (
+                ty, " — but it refers to interior-mutable `%s`" % cell.group(1) if cell else ""), loc)
         elif ty.startswith(LAZY_TYPES) and split_generic(ty)[1] and split_generic(ty)[1][0] in LAZY_STATICS:
             rep.ok("static:" + key, "write-once %s — %s" % (ty, LAZY_STATICS[split_generic(ty)[1][0]]), loc)
         else:
@@ -953,16 +992,18 @@ ALLOWED_SOURCES = {
 }
 
 
-@RULES.rule("R11.3", "no nondeterminism source reachable from generation / emission", floor=8)
+@RULES.rule("R11.3", "no nondeterminism source reachable from generation / emission", floor=9)
 def r11_3(rep):
     """Necessary: name an anonymous struct after `std::process::id()` / an `Instant`, or format a pointer (`{:p}`,
     `ptr as usize`) into an identifier or a comment, and two runs on the same input differ."""
     prog = rep.prog
     roots = [r for r in ROOTS if r in prog.bodies]
     rep.need("Bindings::generate" in roots and "codegen::codegen" in roots or None, "Bindings::generate and codegen::codegen")
-    reach = prog.reachable(roots)
+    drops = sorted(p for p, b in prog.bodies.items() if b.fact.get("impl_trait") == "std::ops::Drop")
+    reach = prog.reachable(roots + drops)  # destructors run implicitly: the call graph has no edge to them
     bodies = [prog.bodies[p] for p in reach if p in prog.bodies]
     rep.note("roots", roots)
+    rep.note("implicit_roots_drop_impls", len(drops))
     rep.note("reachable_bodies", len(bodies))
     if not rep.check(len(bodies) >= 800, "reachability-non-trivial", "%d bodies reachable from %s" % (len(bodies), roots)):
         return
@@ -1029,7 +1070,7 @@ def _direct_callees(b):
     return out
 
 
-@RULES.rule("R11.4", "libclang is loaded and installed for the thread before the first clang call of a public entry", floor=3)
+@RULES.rule("R11.4", "libclang is loaded and installed for the thread before the first clang call of a public entry", floor=6)
 def r11_4(rep):
     """Necessary: drop (or move below the first `clang::` call) the `ensure_libclang_is_loaded()` of
     `Bindings::generate` and a generation on a second thread calls into a libclang that was never installed for
@@ -1177,7 +1218,7 @@ def _field_type(prog, adt, field):
     return None
 
 
-@RULES.rule("R11.5", "containers that order the output are ordered containers", floor=12)
+@RULES.rule("R11.5", "containers that order the output are ordered containers", floor=15)
 def r11_5(rep):
     """Necessary: make `Module::children` / `codegen_items` an `FxHashSet<ItemId>` and items are emitted in hash order
     (golden tests with a handful of items may still pass: small integer keys often iterate in insertion order);
@@ -1228,7 +1269,7 @@ def r11_5(rep):
     # opaque_array_types_needed: hash set -> Vec -> sort before anything else
     b = rep.need(prog.fn("ir::context::BindgenContext::opaque_array_types_needed"), "fn opaque_array_types_needed")
     hf = HashFlows(prog)
-    mine = [(op, cont, start) for bb, op, cont, start in hf.sites() if bb is b]
+    mine = [(op, cont, start) for bb, op, cont, start, *_ in hf.sites() if bb is b]
     rep.need(mine, "iteration over generated_opaque_array in opaque_array_types_needed")
     for op, cont, start in mine:
         kind, d = hf.sink(b, start)
